@@ -39,11 +39,25 @@ Muts(b) == {SubSeq(b, 1, j) : j \in 0..(Len(b) - 1)}
            \cup {[b EXCEPT ![j] = (b[j] + 1) % 256] : j \in 1..Len(b)}
            \cup {[b EXCEPT ![j] = 255 - b[j]] : j \in 1..Len(b)}
            \cup {b \o <<1, 2, 3>>}
+(* Respell(b, j): byte j taken as the one-byte length header of a short string, re-spelt in the
+   4-byte ("medium") form with the same content and fresh padding. Where j really is a string
+   header this is the non-minimal length form every reader must refuse; elsewhere it is one more
+   arbitrary input. Dec1 decides either way. *)
+Respell(b, j) ==
+  LET l == b[j]
+      old == ((1 + l + 3) \div 4) * 4
+      pad == (4 - (l % 4)) % 4
+  IN SubSeq(b, 1, j - 1) \o <<254, l, 0, 0>> \o SubSeq(b, j + 1, j + l) \o [i \in 1..pad |-> 0] \o SubSeq(b, j + old, Len(b))
+Respells(b) == {Respell(b, j) : j \in {i \in 1..Len(b) : b[i] <= 253 /\ i + ((1 + b[i] + 3) \div 4) * 4 - 1 <= Len(b)}}
+(* long encodings (LongStrings): the re-spellings, the head and the tail only *)
+MutsFor(b) == IF Len(b) <= 80 THEN Muts(b) \cup Respells(b)
+              ELSE Respells(b) \cup {[b EXCEPT ![j] = (b[j] + 1) % 256] : j \in 1..8}
+                   \cup {SubSeq(b, 1, Len(b) - 1), [b EXCEPT ![Len(b)] = 1], [b EXCEPT ![Len(b)] = 255 - b[Len(b)]]}
 StepMut == /\ st.kind = "val" /\ st.k < KMut /\ ~TY(st.tn).origin2
            /\ \E boxed \in BOOLEAN :
                 LET e == Enc1(st.tn, NoEnv, st.v, ~boxed) IN
                 /\ e.ok
-                /\ \E m \in Muts(e.b) : st' = [kind |-> "bytes", tn |-> st.tn, boxed |-> boxed, b |-> m, k |-> 0]
+                /\ \E m \in MutsFor(e.b) : st' = [kind |-> "bytes", tn |-> st.tn, boxed |-> boxed, b |-> m, k |-> 0]
 
 StepJson == /\ st.kind = "val" /\ st.k < KJson
             /\ \E m \in Modes \cup BadModes :
